@@ -9,6 +9,9 @@ use std::cell::RefCell;
 use std::collections::HashSet;
 use std::fmt;
 
+/// protects the harness' memory against (legitimately accepted) counts up to the default max_seq_size of 10^9
+pub const HARNESS_SEQ_CAP: usize = 2_000_000;
+
 #[derive(Default, Debug, Clone)]
 pub struct Stats {
 	pub visits: u64,
@@ -224,7 +227,10 @@ impl<'a> CV<'a> {
 			},
 			Eff::DecimalBytes { scale } | Eff::DecimalFixed { scale, .. } => match parse_decimal_string(st) {
 				Some((u, sc)) if sc == scale => Ok(Val::Decimal(u)),
-				Some((u, sc)) if sc < scale => Ok(Val::Decimal(u * 10i128.pow(scale - sc))),
+				Some((u, sc)) if sc < scale => match 10i128.checked_pow(scale - sc).and_then(|p| u.checked_mul(p)) {
+					Some(x) => Ok(Val::Decimal(x)),
+					None => Err(E::custom("harness: decimal text out of range")),
+				},
 				_ => Err(E::custom(format!("harness: decimal text {st:?} does not have schema scale {scale}"))),
 			},
 			Eff::BigDecimal => match parse_decimal_string(st) {
@@ -344,6 +350,9 @@ impl<'de, 'a> Visitor<'de> for CV<'a> {
 				let mut out = Vec::new();
 				while let Some(x) = seq.next_element_seed(self.0.at(item))? {
 					out.push(x);
+					if out.len() > HARNESS_SEQ_CAP {
+						return Err(A::Error::custom("harness: sequence longer than the harness is willing to hold"));
+					}
 					let mut st = self.0.m.stats.borrow_mut();
 					if out.len() > st.max_seq_len {
 						st.max_seq_len = out.len();
@@ -376,6 +385,9 @@ impl<'de, 'a> Visitor<'de> for CV<'a> {
 				while let Some(k) = map.next_key::<String>()? {
 					let v = map.next_value_seed(self.0.at(item))?;
 					out.push((k, v));
+					if out.len() > HARNESS_SEQ_CAP {
+						return Err(A::Error::custom("harness: map longer than the harness is willing to hold"));
+					}
 					let mut st = self.0.m.stats.borrow_mut();
 					if out.len() > st.max_seq_len {
 						st.max_seq_len = out.len();
@@ -553,6 +565,9 @@ impl<'de, 'a> Visitor<'de> for AnySeed<'a> {
 			depth: self.depth + 1,
 		})? {
 			out.push(x);
+			if out.len() > HARNESS_SEQ_CAP {
+				return Err(A::Error::custom("harness: sequence longer than the harness is willing to hold"));
+			}
 			let mut st = self.stats.borrow_mut();
 			if out.len() > st.max_seq_len {
 				st.max_seq_len = out.len();
@@ -577,6 +592,9 @@ impl<'de, 'a> Visitor<'de> for AnySeed<'a> {
 				depth: self.depth + 1,
 			})?;
 			out.push((k, v));
+			if out.len() > HARNESS_SEQ_CAP {
+				return Err(A::Error::custom("harness: map longer than the harness is willing to hold"));
+			}
 			let mut st = self.stats.borrow_mut();
 			if out.len() > st.max_seq_len {
 				st.max_seq_len = out.len();
